@@ -35,14 +35,22 @@ theorem altStep_other (o : Option Bool) (a : Act) (h : isCb a = false) : altStep
 @[simp] theorem altStep_startRet (o) : altStep o .startRet = o := altStep_other _ _ rfl
 @[simp] theorem altStep_stopRet (o) : altStep o .stopRet = o := altStep_other _ _ rfl
 @[simp] theorem altStep_resetTries (o) : altStep o .resetTries = o := altStep_other _ _ rfl
+@[simp] theorem altStep_failCounted (o k) : altStep o (.failCounted k) = o := altStep_other _ _ rfl
 
 def isDiscK : Kind → Bool | .disc _ => true | _ => false
-def pendD (t : Task) : Bool := isDiscK t.kind && t.pc != .done
+/-- the connect task is trying: inside a client call, or reporting the failure of the attempt -/
+def tryPc : Pc → Bool | .inStart | .inFinish | .inOnError _ => true | _ => false
+
+theorem try_inflight (pc : Pc) (h : tryPc pc = true) : inflightPc pc = true := by
+  cases pc <;> simp_all [tryPc, inflightPc]
+
+/-- a report of a session's end that has not been made yet (the task has not reached `on_disconnect`) -/
+def pendD (t : Task) : Bool := isDiscK t.kind && (t.pc == .running || t.pc == .lockWait)
 def PD (s : St) : Prop := ∃ (i : Nat) (t : Task), s.tasks[i]? = some t ∧ pendD t = true
 
 structure Alt (s : St) : Prop where
   a1 : s.cli = .live → s.state = .ready
-  a2 : ∀ (i : Nat) (t : Task), s.tasks[i]? = some t → inflightPc t.pc = true → s.state ≠ .ready
+  a2 : ∀ (i : Nat) (t : Task), s.tasks[i]? = some t → tryPc t.pc = true → s.state ≠ .ready
   a3 : ∀ (i : Nat) (t : Task), s.tasks[i]? = some t → pendD t = true → s.cli = .idle ∧ s.state = .ready
   a3u : ∀ (i j : Nat) (ti tj : Task), s.tasks[i]? = some ti → s.tasks[j]? = some tj → pendD ti = true → pendD tj = true → i = j
   a4 : s.state = .ready → s.cli = .live ∨ PD s
@@ -50,7 +58,7 @@ structure Alt (s : St) : Prop where
   a5c : ¬(s.cli = .live ∨ PD s) → altState s.log = some false
 
 /-- what `Alt` reads of a task -/
-def proj (t : Task) : Bool × Bool := (inflightPc t.pc, pendD t)
+def proj (t : Task) : Bool × Bool := (tryPc t.pc, pendD t)
 
 theorem proj_of_map {s s' : St} (h : s'.tasks.map proj = s.tasks.map proj) (i : Nat) (t' : Task) (hi : s'.tasks[i]? = some t') :
     ∃ t, s.tasks[i]? = some t ∧ proj t = proj t' := by
@@ -105,7 +113,7 @@ theorem altState_emit (s : St) (a : Act) (h : isCb a = false) : altState (emit s
 /-- tasks only lose in-flight status, pending disconnect reports are the same; new tasks are neither -/
 theorem Alt.mono {s s' : St} (h : Alt s)
     (h1 : ∀ (i : Nat) (t' : Task), s'.tasks[i]? = some t' → (∃ t, s.tasks[i]? = some t ∧
-      (inflightPc t'.pc = true → inflightPc t.pc = true) ∧ pendD t' = pendD t) ∨ (inflightPc t'.pc = false ∧ pendD t' = false))
+      (tryPc t'.pc = true → tryPc t.pc = true) ∧ pendD t' = pendD t) ∨ (tryPc t'.pc = false ∧ pendD t' = false))
     (h2 : PD s → PD s') (hs : s'.state = s.state) (hc : s'.cli = s.cli) (hl : altState s'.log = altState s.log) : Alt s' := by
   have hpd : PD s' ↔ PD s := by
     constructor
@@ -145,27 +153,31 @@ theorem alt_setTask_proj (s : St) (tid : Nat) (f : Task → Task) (hf : ∀ t, s
     (h : Alt s) : Alt (setTask s tid f) :=
   h.same (by simp only [setTask]; exact map_proj_modify _ _ _ hf) rfl rfl rfl
 
-theorem alt_finish (s : St) (tid : Nat) (hk : NonDisc s tid) (h : Alt s) : Alt (finish s tid) := by
+theorem NonDisc.pend {s : St} {tid : Nat} (hk : NonDisc s tid) : ∀ t, s.tasks[tid]? = some t → pendD t = false := by
+  intro t ht; simp [pendD, hk t ht]
+
+theorem alt_finish (s : St) (tid : Nat) (hk : ∀ t, s.tasks[tid]? = some t → pendD t = false) (h : Alt s) : Alt (finish s tid) := by
   refine h.mono ?_ ?_ rfl rfl rfl
   · intro i t' hi
     obtain ⟨t0, h0, rfl⟩ := getElem?_setTask hi
     refine Or.inl ⟨t0, h0, ?_, ?_⟩
     · split
-      · intro hp; simp [inflightPc] at hp
+      · intro hp; simp [tryPc] at hp
       · exact id
     · split
       · rename_i heq; subst heq
-        simp [pendD, hk t0 h0]
+        rw [hk t0 h0]; simp [pendD]
       · rfl
   · rintro ⟨i, t, hi, hp⟩
     have hne : tid ≠ i := by
       intro heq; subst heq
-      have := hk t hi; simp [pendD, this] at hp
+      rw [hk t hi] at hp; cases hp
     exact ⟨i, t, by simp only [finish, setTask]; rw [List.getElem?_modify_ne _ _ hne]; exact hi, hp⟩
 
 theorem alt_release (s : St) (h : Alt s) : Alt (release s) := h.same (by simp) (by simp) (by simp) (by simp)
 
-theorem alt_afterFail (s : St) (tid : Nat) (hk : NonDisc s tid) (h : Alt s) : Alt (afterFail s tid) := by
+theorem alt_afterFail (s : St) (tid : Nat) (hk : ∀ t, s.tasks[tid]? = some t → pendD t = false) (h : Alt s) :
+    Alt (afterFail s tid) := by
   unfold afterFail
   dsimp only
   apply alt_finish
@@ -183,17 +195,13 @@ theorem alt_afterFail (s : St) (tid : Nat) (hk : NonDisc s tid) (h : Alt s) : Al
       · exact h
     exact h1.same rfl rfl rfl (by simp [emit, altState_append])
 
-/-- an in-flight task is not a disconnect report -/
-theorem nonDisc_of_inflight (s : St) (tid : Nat) (t : Task) (h : Alt s) (ht : s.tasks[tid]? = some t)
-    (hp : inflightPc t.pc = true) : NonDisc s tid := by
-  intro t' ht'
-  rw [ht] at ht'; cases ht'
-  cases hk : isDiscK t.kind
-  · rfl
-  · have hpd : pendD t = true := by
-      simp only [pendD, hk, Bool.true_and, bne_iff_ne, ne_eq]
-      intro hd; simp [hd, inflightPc] at hp
-    exact absurd (h.a3 tid t ht hpd).2 (h.a2 tid t ht hp)
+/-- a task past its first suspension under the lock is not an unreported disconnect -/
+theorem pendD_false_of_pc (t : Task) (h : t.pc ≠ .running ∧ t.pc ≠ .lockWait) : pendD t = false := by
+  cases hp : t.pc <;> simp_all [pendD]
+
+theorem pendD_false_of_try (t : Task) (h : tryPc t.pc = true) : pendD t = false := by
+  apply pendD_false_of_pc
+  cases hp : t.pc <;> simp_all [tryPc]
 
 theorem not_PD_of_not_ready (s : St) (h : Alt s) (hs : s.state ≠ .ready) : ¬PD s := by
   rintro ⟨i, t, hi, hp⟩; exact hs (h.a3 i t hi hp).2
@@ -218,15 +226,33 @@ theorem alt_not_ready {s s' : St} (h : Alt s) (hs : s.state ≠ .ready) (ht : s'
     · exact absurd hp hnpd'
   · intro _; rw [hl]; exact h.a5c (by rintro (hl' | hp); exact hnl hl'; exact hnpd hp)
 
-theorem alt_failPath (s : St) (tid : Nat) (t : Task) (k : ErrK) (h : Alt s) (ht : s.tasks[tid]? = some t)
-    (hp : inflightPc t.pc = true) : Alt (afterFail (handleFailure { s with cli := .idle } k) tid) := by
-  have hnr := h.a2 tid t ht hp
+theorem alt_failEnd (s : St) (tid : Nat) (t : Task) (k : ErrK) (h : Alt s) (ht : s.tasks[tid]? = some t)
+    (hp : tryPc t.pc = true) : Alt (failEnd s k tid) := by
+  unfold failEnd
   apply alt_afterFail
-  · intro t' ht'; exact nonDisc_of_inflight s tid t h ht hp t' (by simpa using ht')
-  · refine alt_not_ready h hnr rfl ?_ ?_ ?_
-    · simp [handleFailure, setState]
-    · simp [handleFailure]
-    · simp [handleFailure, emit, setState, altState_append]
+  · intro t' ht'
+    have : s.tasks[tid]? = some t' := ht'
+    rw [ht] at this; cases this
+    exact pendD_false_of_try t hp
+  · exact h.same rfl rfl rfl (by simp [emit, altState_append])
+
+theorem alt_failBegin (s : St) (tid : Nat) (t : Task) (k : ErrK) (h : Alt s) (ht : s.tasks[tid]? = some t)
+    (hp : tryPc t.pc = true) : Alt (failBegin { s with cli := .idle } k tid) := by
+  have hnr := h.a2 tid t ht hp
+  unfold failBegin
+  dsimp only
+  have h1 : Alt (emit (setState { s with cli := .idle } .disconnected) (.onConnectError k)) :=
+    alt_not_ready h hnr rfl (by simp [setState]) (by simp) (by simp [emit, setState, altState_append])
+  split
+  · refine alt_setTask_proj _ tid _ ?_ h1
+    intro t' ht'
+    have : s.tasks[tid]? = some t' := ht'
+    rw [ht] at this; cases this
+    have hpd := pendD_false_of_try t hp
+    have hpd' : pendD { t with pc := .inOnError k, result := none, mustCancel := false } = false := pendD_false_of_pc _ (by simp)
+    simp only [proj, hp, hpd, hpd']
+    rfl
+  · exact alt_failEnd _ tid t k h1 ht hp
 
 /-! ## kinds of tasks never change; new tasks made inside procedures are connect tasks; only connect tasks are cancelled -/
 
@@ -391,13 +417,26 @@ theorem kr_acquire (s : St) (tid : Nat) : KR s (acquire s tid).1 := by
   · exact (KR.ofEq (s := s) (s' := { s with waiters := s.waiters ++ [(tid, .pending)] }) rfl).trans
       (kr_setTask _ tid _ (fun _ => rfl) (fun _ h => Or.inl h))
 
+theorem kr_failEnd (s : St) (k : ErrK) (tid : Nat) : KR s (failEnd s k tid) := by
+  unfold failEnd
+  exact (KR.ofEq (s := s) (s' := emit { s with tries := if k = .auth then maxTries else s.tries + 1 } (.failCounted k)) rfl).trans
+    (kr_afterFail _ tid)
+
+theorem kr_failBegin (s : St) (k : ErrK) (tid : Nat) : KR s (failBegin s k tid) := by
+  unfold failBegin
+  dsimp only
+  have e1 : KR s (emit (setState s .disconnected) (.onConnectError k)) := KR.ofEq rfl
+  split
+  · exact e1.trans (kr_setTask _ tid _ (fun _ => rfl) (fun _ h => by simp at h))
+  · exact e1.trans (kr_failEnd _ k tid)
+
 theorem kr_connectLocked (s : St) (tid : Nat) : KR s (connectLocked s tid) := by
   unfold connectLocked
   split
   · exact (kr_release s).trans (kr_finish _ tid)
   · dsimp only
     split
-    · exact (KR.ofEq (s := s) (s' := handleFailure (emit (setState s .connecting) .attempt) .other) rfl).trans (kr_afterFail _ tid)
+    · exact (KR.ofEq (s := s) (s' := emit (setState s .connecting) .attempt) rfl).trans (kr_failBegin _ .other tid)
     · exact (KR.ofEq (s := s) (s' := { emit (setState s .connecting) .attempt with cli := .starting }) rfl).trans
         (kr_setTask _ tid _ (fun _ => rfl) (fun _ h => Or.inl h))
 
@@ -435,7 +474,7 @@ theorem kr_scheduleConnect (s : St) (d : Nat) : KR s (scheduleConnect s d) := by
 theorem alt_connectLocked (s : St) (tid : Nat) (hk : NonDisc s tid) (h : Alt s) : Alt (connectLocked s tid) := by
   unfold connectLocked
   split
-  · exact alt_finish _ tid (fun t ht => hk t (by simpa using ht)) (alt_release s h)
+  · exact alt_finish _ tid (fun t ht => NonDisc.pend hk t (by simpa using ht)) (alt_release s h)
   · rename_i hc
     have hst : s.state = .disconnected := by
       cases hs : s.state <;> simp [hs] at hc <;> rfl
@@ -493,7 +532,7 @@ theorem alt_append (s : St) (k : Kind) (hk : isDiscK k = false) (h : Alt s) :
       cases hj : i - s.tasks.length with
       | zero =>
         simp [hj] at hi
-        exact Or.inr (by rw [← hi]; simp [inflightPc, pendD, hk])
+        exact Or.inr (by rw [← hi]; simp [tryPc, pendD, hk])
       | succ j => simp [hj] at hi
   · rintro ⟨i, t, hi, hp⟩
     exact ⟨i, t, by simp only; rw [List.getElem?_append_left (List.getElem?_eq_some_iff.mp hi).1]; exact hi, hp⟩
@@ -506,7 +545,7 @@ theorem alt_acquire (s : St) (tid : Nat) (h : Alt s) (hr : ∀ t, s.tasks[tid]? 
   · refine alt_setTask_proj _ tid _ ?_ (h.same rfl rfl rfl rfl)
     intro t ht
     have := hr t ht
-    simp only [proj, pendD, this, inflightPc]
+    simp only [proj, pendD, this, tryPc]
     cases isDiscK t.kind <;> rfl
 
 theorem alt_spawnConnect (s : St) (h : Alt s) : Alt (spawnConnect s) := by
@@ -560,36 +599,59 @@ theorem alt_scheduleConnect (s : St) (d : Nat) (h : Alt s) : Alt (scheduleConnec
   · exact alt_callConnectOnce s h
   · exact h.same rfl rfl rfl (by simp [emit, altState_append])
 
-/-- the report of a session's end, with the lock held -/
+/-- the rest of `_on_disconnect` once `on_disconnect` has returned: the task is past its report -/
+theorem alt_discEnd (s : St) (tid : Nat) (e : Bool) (hk : ∀ t, s.tasks[tid]? = some t → pendD t = false) (h : Alt s) :
+    Alt (discEnd s tid e) := by
+  unfold discEnd
+  dsimp only
+  have h2 : Alt (finish (release s) tid) := alt_finish _ tid (fun t ht => hk t (by simpa using ht)) (alt_release s h)
+  split
+  · exact h2
+  · exact alt_scheduleConnect _ _ h2
+
+/-- the report of a session's end, with the lock held: `on_disconnect` is called; afterwards the task is either suspended
+in it (`f` = "pc := inOnDisc") or finished (`f` = "pc := done") -/
+theorem alt_reported (s : St) (tid : Nat) (e : Bool) (t : Task) (ht : s.tasks[tid]? = some t) (hp : pendD t = true)
+    (h : Alt s) (f : Task → Task) (hf : ∀ t, pendD (f t) = false ∧ tryPc (f t).pc = false) :
+    Alt (setTask (emit (setState s .disconnected) (.onDisconnect e)) tid f) := by
+  have hci := (h.a3 tid t ht hp).1
+  have hopen := h.a5o (Or.inr ⟨tid, t, ht, hp⟩)
+  have hnpd : ¬PD (setTask (emit (setState s .disconnected) (.onDisconnect e)) tid f) := by
+    rintro ⟨i, t', hi, hp'⟩
+    obtain ⟨t0, h0, rfl⟩ := getElem?_setTask hi
+    have h0' : s.tasks[i]? = some t0 := by simpa using h0
+    by_cases hti : tid = i
+    · rw [if_pos hti, (hf t0).1] at hp'; cases hp'
+    · rw [if_neg hti] at hp'
+      exact hti (h.a3u tid i t t0 ht h0' hp hp')
+  constructor
+  · intro hl; simp [hci] at hl
+  · intro _ _ _ _; simp [setTask, setState]
+  · intro i t' hi hp'; exact absurd ⟨i, t', hi, hp'⟩ hnpd
+  · intro i j ti tj hi _ hpi _; exact absurd ⟨i, ti, hi, hpi⟩ hnpd
+  · intro hr; simp [setTask, setState] at hr
+  · rintro (hl | hpd)
+    · simp [hci] at hl
+    · exact absurd hpd hnpd
+  · intro _
+    simp [setTask, emit, setState, altState_append, hopen, altStep]
+
 theorem alt_discLocked (s : St) (tid : Nat) (e : Bool) (t : Task) (ht : s.tasks[tid]? = some t) (hp : pendD t = true)
     (h : Alt s) : Alt (discLocked s tid e) := by
   unfold discLocked
   dsimp only
-  have hci := (h.a3 tid t ht hp).1
-  have hopen := h.a5o (Or.inr ⟨tid, t, ht, hp⟩)
-  have h2 : Alt (finish (release (emit (setState s .disconnected) (.onDisconnect e))) tid) := by
-    have hnpd : ¬PD (finish (release (emit (setState s .disconnected) (.onDisconnect e))) tid) := by
-      rintro ⟨i, t', hi, hp'⟩
-      obtain ⟨t0, h0, rfl⟩ := getElem?_setTask hi
-      have h0' : s.tasks[i]? = some t0 := by simpa using h0
-      split at hp'
-      · simp [pendD] at hp'
-      · rename_i hne
-        exact hne (h.a3u tid i t t0 ht h0' hp hp')
-    constructor
-    · intro hl; simp [hci] at hl
-    · intro _ _ _ _; simp [setState]
-    · intro i t' hi hp'; exact absurd ⟨i, t', hi, hp'⟩ hnpd
-    · intro i j ti tj hi _ hpi _; exact absurd ⟨i, ti, hi, hpi⟩ hnpd
-    · intro hr; simp [setState] at hr
-    · rintro (hl | hpd)
-      · simp [hci] at hl
-      · exact absurd hpd hnpd
-    · intro _
-      simp [emit, setState, altState_append, hopen, altStep]
   split
-  · exact h2
-  · exact alt_scheduleConnect _ _ h2
+  · exact alt_reported s tid e t ht hp h _ (fun t => ⟨pendD_false_of_pc _ (by simp), rfl⟩)
+  · -- not suspended: finish at once; `release` does not touch what `Alt` reads
+    unfold discEnd
+    dsimp only
+    have h2 : Alt (finish (release (emit (setState s .disconnected) (.onDisconnect e))) tid) := by
+      have := alt_reported s tid e t ht hp h (fun t => { t with pc := .done, mustCancel := false, result := none })
+        (fun t => ⟨pendD_false_of_pc _ (by simp), rfl⟩)
+      exact this.same (by simp [finish, setTask]) (by simp [finish, setTask]) (by simp [finish, setTask]) (by simp [finish, setTask])
+    split
+    · exact h2
+    · exact alt_scheduleConnect _ _ h2
 
 theorem alt_startLocked (s : St) (tid : Nat) (hk : NonDisc s tid) (h : Alt s) : Alt (startLocked s tid) := by
   unfold startLocked
@@ -597,7 +659,7 @@ theorem alt_startLocked (s : St) (tid : Nat) (hk : NonDisc s tid) (h : Alt s) : 
   have key : ∀ X : St, KR s X → Alt X → Alt (emit (finish (release X) tid) .startRet) := by
     intro X kx hx
     refine (alt_finish _ tid ?_ (alt_release X hx)).same rfl rfl rfl (by simp [emit, altState_append])
-    exact (kx.trans (kr_release X)).nonDisc tid hk
+    exact NonDisc.pend ((kx.trans (kr_release X)).nonDisc tid hk)
   apply key
   · split
     · exact KR.ofEq rfl
@@ -607,7 +669,7 @@ theorem alt_startLocked (s : St) (tid : Nat) (hk : NonDisc s tid) (h : Alt s) : 
     · exact alt_scheduleConnect _ 0 (h.same rfl rfl rfl (by simp [emit, altState_append]))
 
 /-- a body runs for the task at `tid` whose kind is `k` (never `stop()`) -/
-theorem alt_lockedBody (s : St) (tid : Nat) (t : Task) (ht : s.tasks[tid]? = some t) (hnd : t.pc ≠ .done)
+theorem alt_lockedBody (s : St) (tid : Nat) (t : Task) (ht : s.tasks[tid]? = some t) (hnd : t.pc = .running)
     (hs : t.kind ≠ .stopCall) (h : Alt s) : Alt (lockedBody s tid t.kind) := by
   unfold lockedBody
   split
@@ -667,7 +729,7 @@ theorem alt_sessionEnd (s : St) (e : Bool) (hl : s.cli = .live) (h : Alt s) : Al
     · intro i t' hi hp
       rcases hidx i t' hi with h0 | ⟨_, rfl⟩
       · exact h.a2 i t' h0 hp
-      · simp [inflightPc] at hp
+      · simp [tryPc] at hp
     · intro i t' hi hp
       exact ⟨rfl, hready⟩
     · intro i j ti tj hi hj hpi hpj
@@ -699,14 +761,21 @@ theorem alt_sessionEnd (s : St) (e : Bool) (hl : s.cli = .live) (h : Alt s) : Al
 
 /-! ## the kind relation through the remaining procedures (histories without `stop()`) -/
 
-theorem kr_discLocked (s : St) (tid : Nat) (e : Bool) : KR s (discLocked s tid e) := by
-  unfold discLocked
+theorem kr_discEnd (s : St) (tid : Nat) (e : Bool) : KR s (discEnd s tid e) := by
+  unfold discEnd
   dsimp only
-  have h1 : KR s (finish (release (emit (setState s .disconnected) (.onDisconnect e))) tid) :=
-    (KR.ofEq (s := s) (s' := release (emit (setState s .disconnected) (.onDisconnect e))) (by simp)).trans (kr_finish _ tid)
+  have h1 : KR s (finish (release s) tid) := (kr_release s).trans (kr_finish _ tid)
   split
   · exact h1
   · exact h1.trans (kr_scheduleConnect _ _)
+
+theorem kr_discLocked (s : St) (tid : Nat) (e : Bool) : KR s (discLocked s tid e) := by
+  unfold discLocked
+  dsimp only
+  have h1 : KR s (emit (setState s .disconnected) (.onDisconnect e)) := KR.ofEq rfl
+  split
+  · exact h1.trans (kr_setTask _ tid _ (fun _ => rfl) (fun _ h => Or.inl h))
+  · exact h1.trans (kr_discEnd _ _ _)
 
 theorem kr_startLocked (s : St) (tid : Nat) : KR s (startLocked s tid) := by
   unfold startLocked
@@ -773,24 +842,70 @@ theorem kr_wakeTask (s : St) (tid : Nat) (t : Task) (hk : t.kind ≠ .stopCall) 
         exact (e1.trans e2).trans (kr_lockedBody _ tid t.kind hk)
       · exact KR.refl s
   · split
-    · exact (KR.ofEq (s := s) (s' := handleFailure { s with cli := .idle } .other) rfl).trans (kr_afterFail _ tid)
+    · exact (KR.ofEq (s := s) (s' := { s with cli := .idle }) rfl).trans (kr_failBegin _ _ tid)
     · split
       · have e1 : KR s (setState (stopZc { s with cli := .finishing }) .handshaking) := KR.ofEq (by simp)
         have e2 : KR (setState (stopZc { s with cli := .finishing }) .handshaking)
             (setTask (setState (stopZc { s with cli := .finishing }) .handshaking) tid fun t => { t with pc := .inFinish, result := none }) :=
           kr_setTask _ tid _ (fun _ => rfl) (fun _ h => Or.inl h)
         exact e1.trans e2
-      · exact (KR.ofEq (s := s) (s' := handleFailure { s with cli := .idle } _) rfl).trans (kr_afterFail _ tid)
+      · exact (KR.ofEq (s := s) (s' := { s with cli := .idle }) rfl).trans (kr_failBegin _ _ tid)
       · exact KR.refl s
   · split
-    · exact (KR.ofEq (s := s) (s' := handleFailure { s with cli := .idle } .other) rfl).trans (kr_afterFail _ tid)
+    · exact (KR.ofEq (s := s) (s' := { s with cli := .idle }) rfl).trans (kr_failBegin _ _ tid)
     · split
-      · have e1 : KR s (release (emit (setState { s with cli := .live, tries := 0 } .ready) .onConnect)) := KR.ofEq (by simp)
-        exact e1.trans (kr_finish _ tid)
-      · exact (KR.ofEq (s := s) (s' := handleFailure { s with cli := .idle } _) rfl).trans (kr_afterFail _ tid)
+      · dsimp only
+        have e1 : KR s (emit (setState { s with cli := .live, tries := 0 } .ready) .onConnect) := KR.ofEq rfl
+        split
+        · exact e1.trans (kr_setTask _ tid _ (fun _ => rfl) (fun _ h => Or.inl h))
+        · exact e1.trans ((kr_release _).trans (kr_finish _ tid))
+      · exact (KR.ofEq (s := s) (s' := { s with cli := .idle }) rfl).trans (kr_failBegin _ _ tid)
       · exact KR.refl s
+  · split
+    · exact (kr_release s).trans (kr_finish _ tid)
+    · exact KR.refl s
+  · split
+    · exact (kr_release s).trans (kr_finish _ tid)
+    · split
+      · exact kr_failEnd s _ tid
+      · exact KR.refl s
+  · split
+    · split
+      · exact kr_discEnd s tid _
+      · exact KR.refl s
+    · exact KR.refl s
 
 /-! ## wake-ups and events -/
+
+/-- the session is established: `on_connect` is called; afterwards the task is suspended in it or finished -/
+theorem alt_connected (s : St) (tid : Nat) (t : Task) (hl : LockInv s) (h : Alt s) (ht : s.tasks[tid]? = some t)
+    (hp : tryPc t.pc = true) (f : Task → Task) (hf : ∀ t, pendD (f t) = false ∧ tryPc (f t).pc = false) :
+    Alt (setTask (emit (setState { s with cli := .live, tries := 0 } .ready) .onConnect) tid f) := by
+  have hnr := h.a2 tid t ht hp
+  have hnpd := not_PD_of_not_ready s h hnr
+  have hnl := not_live_of_not_ready s h hnr
+  have hclosed := h.a5c (by rintro (hl' | hp'); exact hnl hl'; exact hnpd hp')
+  have hheld := held_of_inflight s tid t hl ht (try_inflight _ hp)
+  have hnpd' : ¬PD (setTask (emit (setState { s with cli := .live, tries := 0 } .ready) .onConnect) tid f) := by
+    rintro ⟨i, t', hi, hp'⟩
+    obtain ⟨t0, h0, rfl⟩ := getElem?_setTask hi
+    by_cases hti : tid = i
+    · rw [if_pos hti, (hf t0).1] at hp'; cases hp'
+    · rw [if_neg hti] at hp'; exact hnpd ⟨i, t0, by simpa using h0, hp'⟩
+  constructor
+  · intro _; simp [setTask, setState]
+  · intro i t' hi hp'
+    obtain ⟨t0, h0, rfl⟩ := getElem?_setTask hi
+    by_cases hti : tid = i
+    · rw [if_pos hti, (hf t0).2] at hp'; cases hp'
+    · rw [if_neg hti] at hp'
+      have := hheld.n i t0 (Ne.symm hti) (by simpa using h0)
+      rw [try_inflight _ hp'] at this; cases this
+  · intro i t' hi hp'; exact absurd ⟨i, t', hi, hp'⟩ hnpd'
+  · intro i j ti tj hi _ hpi _; exact absurd ⟨i, ti, hi, hpi⟩ hnpd'
+  · intro _; left; simp [setTask]
+  · intro _; simp [setTask, emit, setState, altState_append, hclosed, altStep]
+  · intro hc; exfalso; apply hc; left; simp [setTask]
 
 theorem alt_wakeTask (s : St) (tid : Nat) (t : Task) (hl : LockInv s) (hn : NoStopTask s) (hm : MC s) (h : Alt s)
     (ht : s.tasks[tid]? = some t) :
@@ -812,7 +927,7 @@ theorem alt_wakeTask (s : St) (tid : Nat) (t : Task) (hl : LockInv s) (hn : NoSt
         · exact h.same (by simp) (by simp) (by simp) (by simp)
       refine alt_finish _ tid ?_ h1
       intro t' ht'
-      refine hnd t' ?_
+      refine NonDisc.pend hnd t' ?_
       have : (if (removeWaiter s tid).locked = true then removeWaiter s tid else wakeUpFirst (removeWaiter s tid)).tasks = s.tasks := by
         split <;> simp
       rw [this] at ht'; exact ht'
@@ -825,7 +940,7 @@ theorem alt_wakeTask (s : St) (tid : Nat) (t : Task) (hl : LockInv s) (hn : NoSt
             have h0 : s.tasks[tid]? = some t' := ht'
             rw [ht] at h0; exact (Option.some.inj h0).symm
           subst this
-          simp only [proj, pendD, hpc, inflightPc]
+          simp only [proj, pendD, hpc, tryPc]
           cases isDiscK t'.kind <;> rfl
         have ht1 : (setTask { removeWaiter s tid with locked := true } tid fun t => { t with pc := .running }).tasks[tid]? =
             some { t with pc := .running } := by
@@ -833,18 +948,17 @@ theorem alt_wakeTask (s : St) (tid : Nat) (t : Task) (hl : LockInv s) (hn : NoSt
           rw [List.getElem?_modify_eq]
           show Option.map _ (s.tasks[tid]?) = _
           rw [ht]; rfl
-        have := alt_lockedBody _ tid { t with pc := .running } ht1 (by simp) (hn tid t ht) h1
+        have := alt_lockedBody _ tid { t with pc := .running } ht1 rfl (hn tid t ht) h1
         exact this
       · exact h
   · -- inStart
     rename_i hpc
-    have hp : inflightPc t.pc = true := by simp [hpc, inflightPc]
+    have hp : tryPc t.pc = true := by simp [hpc, tryPc]
     split
-    · exact alt_failPath s tid t .other h ht hp
+    · exact alt_failBegin s tid t .other h ht hp
     · split
       · -- the socket is open: the task goes on into finish_connection
         have hnr := h.a2 tid t ht hp
-        have hnd := nonDisc_of_inflight s tid t h ht hp
         have h1 : Alt (setState (stopZc { s with cli := .finishing }) .handshaking) :=
           alt_not_ready h hnr (by simp) (by simp [setState]) (by simp) (by simp; unfold stopZc; split <;> simp [emit, altState_append])
         refine alt_setTask_proj _ tid _ ?_ h1
@@ -852,53 +966,60 @@ theorem alt_wakeTask (s : St) (tid : Nat) (t : Task) (hl : LockInv s) (hn : NoSt
         have h0 : s.tasks[tid]? = some t' := by simpa using ht'
         have : t' = t := by rw [ht] at h0; exact (Option.some.inj h0).symm
         subst this
-        have hk := hnd t' ht
-        simp [proj, pendD, hpc, inflightPc, hk]
+        have hpd := pendD_false_of_try t' hp
+        have hpd' : pendD { t' with pc := .inFinish, result := none } = false := pendD_false_of_pc _ (by simp)
+        simp only [proj, hp, hpd, hpd']
+        rfl
       · rename_i k _
-        exact alt_failPath s tid t k h ht hp
+        exact alt_failBegin s tid t k h ht hp
       · exact h
   · -- inFinish
     rename_i hpc
-    have hp : inflightPc t.pc = true := by simp [hpc, inflightPc]
+    have hp : tryPc t.pc = true := by simp [hpc, tryPc]
     split
-    · exact alt_failPath s tid t .other h ht hp
+    · exact alt_failBegin s tid t .other h ht hp
     · split
       · -- the session is established: on_connect
-        have hnr := h.a2 tid t ht hp
-        have hnd := nonDisc_of_inflight s tid t h ht hp
-        have hnpd := not_PD_of_not_ready s h hnr
-        have hnl := not_live_of_not_ready s h hnr
-        have hclosed := h.a5c (by rintro (hl' | hp'); exact hnl hl'; exact hnpd hp')
-        have hheld := held_of_inflight s tid t hl ht hp
-        have htasks : ∀ (i : Nat) (t' : Task),
-            (finish (release (emit (setState { s with cli := .live, tries := 0 } .ready) .onConnect)) tid).tasks[i]? = some t' →
-            ∃ t0, s.tasks[i]? = some t0 ∧ t' = (if tid = i then { t0 with pc := .done, mustCancel := false, result := none } else t0) := by
-          intro i t' hi
-          obtain ⟨t0, h0, rfl⟩ := getElem?_setTask hi
-          exact ⟨t0, by simpa using h0, rfl⟩
-        have hnpd' : ¬PD (finish (release (emit (setState { s with cli := .live, tries := 0 } .ready) .onConnect)) tid) := by
-          rintro ⟨i, t', hi, hp'⟩
-          obtain ⟨t0, h0, rfl⟩ := htasks i t' hi
-          by_cases hti : tid = i
-          · rw [if_pos hti] at hp'; simp [pendD] at hp'
-          · rw [if_neg hti] at hp'; exact hnpd ⟨i, t0, h0, hp'⟩
-        constructor
-        · intro _; simp [setState]
-        · intro i t' hi hp'
-          obtain ⟨t0, h0, rfl⟩ := htasks i t' hi
-          by_cases hti : tid = i
-          · rw [if_pos hti] at hp'; simp [inflightPc] at hp'
-          · rw [if_neg hti] at hp'
-            have := hheld.n i t0 (Ne.symm hti) h0
-            rw [this] at hp'; cases hp'
-        · intro i t' hi hp'; exact absurd ⟨i, t', hi, hp'⟩ hnpd'
-        · intro i j ti tj hi _ hpi _; exact absurd ⟨i, ti, hi, hpi⟩ hnpd'
-        · intro _; left; simp
-        · intro _; simp [emit, setState, altState_append, hclosed, altStep]
-        · intro hc; exfalso; apply hc; left; simp
+        dsimp only
+        split
+        · exact alt_connected s tid t hl h ht hp _ (fun t => ⟨pendD_false_of_pc _ (by simp), rfl⟩)
+        · have := alt_connected s tid t hl h ht hp (fun t => { t with pc := .done, mustCancel := false, result := none })
+            (fun t => ⟨pendD_false_of_pc _ (by simp), rfl⟩)
+          exact this.same (by simp [finish, setTask]) (by simp [finish, setTask]) (by simp [finish, setTask]) (by simp [finish, setTask])
       · rename_i k _
-        exact alt_failPath s tid t k h ht hp
+        exact alt_failBegin s tid t k h ht hp
       · exact h
+  · -- inOnConnect: the callback returned (or the task was cancelled in it): the lock is released
+    rename_i hpc
+    split
+    · refine alt_finish _ tid ?_ (alt_release s h)
+      intro t' ht'
+      have h0 : s.tasks[tid]? = some t' := by simpa using ht'
+      rw [ht] at h0; cases h0
+      exact pendD_false_of_pc _ (by simp [hpc])
+    · exact h
+  · -- inOnError
+    rename_i k hpc
+    have hp : tryPc t.pc = true := by simp [hpc, tryPc]
+    split
+    · refine alt_finish _ tid ?_ (alt_release s h)
+      intro t' ht'
+      have h0 : s.tasks[tid]? = some t' := by simpa using ht'
+      rw [ht] at h0; cases h0
+      exact pendD_false_of_try _ hp
+    · split
+      · exact alt_failEnd s tid t k h ht hp
+      · exact h
+  · -- inOnDisc: `on_disconnect` returned
+    rename_i hpc
+    split
+    · split
+      · refine alt_discEnd s tid _ ?_ h
+        intro t' ht'
+        rw [ht] at ht'; cases ht'
+        exact pendD_false_of_pc _ (by simp [hpc])
+      · exact h
+    · exact h
 
 /-- everything `Alt` needs of a state -/
 structure AltInv (s : St) : Prop where
@@ -934,6 +1055,18 @@ theorem step_altInv (s : St) (e : Ev) (he : e ≠ .callStop) (h : AltInv s) : Al
   | finishDone r =>
     obtain ⟨k, a⟩ := complete_facts s .inFinish r
     exact ⟨hlock, k.noStop hn, k.mcInv hm, a ha⟩
+  | cbDone =>
+    refine AltInv.mk' hlock ?_
+    simp only [step]
+    unfold completeCb
+    split
+    · rename_i tid _
+      have e1 : KR s (setTask s tid fun t => { t with result := some .ok }) :=
+        kr_setTask s tid _ (fun _ => rfl) (fun _ h => Or.inl h)
+      have k := e1.trans (KR.ofEq (s' := { setTask s tid (fun t => { t with result := some .ok }) with ready := s.ready ++ [.wake tid] }) rfl)
+      have a1 : Alt (setTask s tid fun t => { t with result := some .ok }) := alt_setTask_proj s tid _ (fun _ _ => rfl) ha
+      exact ⟨k.noStop hn, k.mcInv hm, a1.same rfl rfl rfl rfl⟩
+    · exact ⟨hn, hm, ha⟩
   | sessionEnd e =>
     refine AltInv.mk' hlock ?_
     simp only [step]
@@ -985,8 +1118,8 @@ theorem step_altInv (s : St) (e : Ev) (he : e ≠ .callStop) (h : AltInv s) : Al
           alt_wakeTask { s with ready := rest } tid t (hl.congr rfl rfl rfl) hn hm (ha.same rfl rfl rfl rfl) ht⟩
       · exact ⟨hn, hm, ha.same rfl rfl rfl rfl⟩
 
-theorem init_altInv (b : Bool) : AltInv (init b) := by
-  refine ⟨init_inv b, ?_, ?_, ?_⟩
+theorem init_altInv (b : Bool) (c e d : Bool := false) : AltInv (init b c e d) := by
+  refine ⟨init_inv b c e d, ?_, ?_, ?_⟩
   · intro i t hi; simp [init] at hi
   · intro i t hi; simp [init] at hi
   · constructor
@@ -1007,10 +1140,10 @@ theorem run_altInv (s : St) (evs : List Ev) (he : ∀ e ∈ evs, e ≠ .callStop
     exact ih (step s e) (fun e' h' => he e' (by simp [h'])) (step_altInv s e (he e (by simp)) h)
 
 /-- the callbacks alternate (starting with on_connect) in every history without `stop()` -/
-theorem alternates_without_stop (named : Bool) (evs : List Ev) (he : ∀ e ∈ evs, e ≠ .callStop) :
-    altState (run (init named) evs).log ≠ none := by
-  have h := (run_altInv (init named) evs he (init_altInv named)).alt
-  by_cases hc : (run (init named) evs).cli = .live ∨ PD (run (init named) evs)
+theorem alternates_without_stop (named : Bool) (evs : List Ev) (he : ∀ e ∈ evs, e ≠ .callStop) (c e d : Bool := false) :
+    altState (run (init named c e d) evs).log ≠ none := by
+  have h := (run_altInv (init named c e d) evs he (init_altInv named c e d)).alt
+  by_cases hc : (run (init named c e d) evs).cli = .live ∨ PD (run (init named c e d) evs)
   · rw [h.a5o hc]; simp
   · rw [h.a5c hc]; simp
 
